@@ -776,6 +776,9 @@ func (p *printer) ref(t *Term) string {
 		}
 		return smtName(t.Name)
 	}
+	if t.Op == "byteof" && linearBytes {
+		return p.byteRef(t)
+	}
 	name := fmt.Sprintf("t%d", t.ID)
 	if p.defined[t.ID] {
 		return name
@@ -814,6 +817,41 @@ func (p *printer) ref(t *Term) string {
 	fmt.Fprintf(p.out, "(define-fun %s () %s %s)\n", name, sortName(t.Sort), body)
 	p.defined[t.ID] = true
 	return name
+}
+
+var linearBytes = false
+
+// byteRef: byte i of the n-byte big-endian encoding of x is a fresh variable; the n variables of one
+// decomposition are tied to x by a single linear equation (no div/mod reaches the solver).
+func (p *printer) byteRef(t *Term) string {
+	x, n := t.Args[0], t.N
+	base := fmt.Sprintf("bo!%d!%d", x.ID, n)
+	if !p.decl[base] {
+		xr := p.ref(x)
+		p.decl[base] = true
+		var sum []string
+		for i := 0; i < n; i++ {
+			b := smtName(fmt.Sprintf("%s!%d", base, i))
+			fmt.Fprintf(p.out, "(declare-const %s Int)\n(assert (and (<= 0 %s) (<= %s 255)))\n", b, b, b)
+			k := pow256(n - 1 - i)
+			if k.Cmp(big1) == 0 {
+				sum = append(sum, b)
+			} else {
+				sum = append(sum, fmt.Sprintf("(* %s %s)", b, k.String()))
+			}
+		}
+		inRange := x.Lo != nil && x.Hi != nil && x.Lo.Sign() >= 0 && x.Hi.Cmp(pow256(n)) < 0
+		lhs := xr
+		if !inRange {
+			lhs = fmt.Sprintf("(mod %s %s)", xr, pow256(n).String())
+		}
+		rhs := sum[0]
+		if len(sum) > 1 {
+			rhs = "(+ " + strings.Join(sum, " ") + ")"
+		}
+		fmt.Fprintf(p.out, "(assert (= %s %s))\n", lhs, rhs)
+	}
+	return smtName(fmt.Sprintf("%s!%d", base, t.N2))
 }
 
 // collectVars lists the variables occurring in t.
